@@ -86,8 +86,11 @@ def replay_context(f, rundir):
     lines = open(ops).read().split("\n")
     i = f["line"] - 1
     first = lines[i].split()
-    if first and first[0] in ("std", "codec", "msg"):
+    if first and first[0] in ("std", "codec", "msg", "frame"):
         return lines[i]
+    if first and first[0] == "udpbuf":
+        # clean/dirty pairs: the op with `sameas` needs its `remember` partner
+        return "\n".join(lines[max(0, i - 1):i + 1]) if " sameas " in lines[i] else lines[i]
     j = i
     while j > 0 and not (len(lines[j].split()) > 1 and lines[j].split()[1] in ("cfg", "new", "start")):
         j -= 1
